@@ -636,8 +636,35 @@ def u14_u16(prog, ctx):
     _common.import_obligations(ctx, prog, [_C12.f1_f3_f5], "U16", "cat reads as show does: ", keep=lambda ob: ob.rule == "F5", what="flags of the history variants")
 
 
+def u17_dispatch(prog, ctx):
+    """U17: the sub-command is chosen by comparing the whole word: `strcmp(argv[..], "show") == 0` - not a prefix (`s...` would run
+    `show` for `syntax`), not `== 1`."""
+    m = prog.fn("main", util=True)
+    words = ("show", "cat", "syntax", "edit", "revert")
+    n = 0
+    for c in m.calls(("strcmp", "strncmp", "strcasecmp", "strncasecmp", "memcmp")):
+        lits = [a.string_value() for a in c.call_args() if a.string_value() in words]
+        if not lits:
+            continue
+        n += 1
+        up = c.up()
+        while up is not None and up.k in ("ParenExpr", "ImplicitCastExpr"):
+            up = up.up()
+        eq0 = up is not None and ((up.k == "BinaryOperator" and up.j.get("op") == "==" and 0 in (up.children[0].const_value(), up.children[1].const_value())) or (
+            up.k == "UnaryOperator" and up.j.get("op") == "!"))
+        if c.j["callee"] == "strcmp" and eq0:
+            ctx.ok("U17", "sub-command `%s` is chosen by the whole word" % lits[0], c.where, render(up)[:60])
+        else:
+            ctx.fail("U17", "sub-command `%s` is chosen by the whole word" % lits[0], c.where,
+                     "`%s`: %s - another sub-command (or none) runs for the word the user gave" % (render(up if up is not None else c)[:60],
+                                                                                                   "a prefix comparison" if c.j["callee"] != "strcmp" else "not a test for equality"),
+                     key="dispatch:%s" % lits[0])
+    ctx.floor("C19 sub-command comparisons", n, 4)
+
+
 def run(prog, ctx):
     u11_u12_imports(prog, ctx)
+    u17_dispatch(prog, ctx)
     u13_option_table(prog, ctx)
     u14_u16(prog, ctx)
     u1(prog, ctx)
